@@ -1,6 +1,7 @@
 package props
 
 import (
+	"bytes"
 	"fmt"
 	"go/ast"
 	"go/parser"
@@ -366,7 +367,7 @@ func genC03() *rapid.Generator[c03Case] {
 			return b
 		}
 		v4 := func(mut int) []byte {
-			b := gen.V4Wire(8, 400, mut).Draw(t, "v4")
+			b := gen.V4Wire(8, rapid.SampledFrom([]int{400, 400, 400, 1300}).Draw(t, "maxval"), mut).Draw(t, "v4")
 			return b
 		}
 		big := func() []byte {
@@ -626,6 +627,34 @@ func TestC03_DeepRelay(t *testing.T) {
 		}
 	}
 	c03.rec.Class("deep relay enumeration")
+}
+
+// TestC03_LongOptions: decoded DHCPv4 packets whose option values have every total length around the multiples of
+// 255 and 256 (up to 1,300 octets, arriving as consecutive instances), alone, next to other options, and inside a
+// DHCPv4-in-DHCPv6 option: every read-only operation, re-encoding included, returns normally.
+func TestC03_LongOptions(t *testing.T) {
+	var lens []int
+	for _, c := range []int{255, 510, 765, 1020, 1275} {
+		for d := -3; d <= 5; d++ {
+			lens = append(lens, c+d)
+		}
+	}
+	for _, code := range []byte{43, 82, 119, 61} {
+		for _, l := range lens {
+			var area []byte
+			for rest, k := l, 0; rest > 0; k++ {
+				n := min(rest, 255)
+				area = append(append(area, code, byte(n)), bytes.Repeat([]byte{byte('a' + k)}, n)...)
+				rest -= n
+			}
+			p := append(append(v4Prefix(), 53, 1, 5), area...)
+			p = append(p, 1, 4, 255, 255, 255, 0, 255)
+			c03.one(t, c03Case{Entry: "v4", B: p})
+			m := append([]byte{20, 0, 0, 0, 0, 87, byte(len(p) >> 8), byte(len(p))}, p...)
+			c03.one(t, c03Case{Entry: "v6", B: m})
+		}
+	}
+	c03.rec.Class("long option values around the instance boundaries")
 }
 
 func FuzzC03_V6(f *testing.F) {
